@@ -263,6 +263,8 @@ def check(run):
         run.violation("R8", up.where, "SceneGraph.update no longer stores the result of kwargs_to_matrix as the edge matrix (the caller's own array may be stored)",
                       key=key_of("C09-R8", "update", "store"))
     run.assume("exceptions between a write and a later reset are not modelled (a raising dict operation leaves the forest unchanged)")
+    from ..scenerecert import recert_rule
+    recert_rule(run, ix, "R9", "C09")
     return {
         "explanation": "Effect analysis finds every function that stores into EnforcedForest.parents/edge_data/node_data directly, "
         "through local aliases or loop targets; on each writer's CFG the hash reset dominates or post-dominates the write, topology "
